@@ -86,6 +86,7 @@ type Event struct {
 	ToErr bool            `json:"toerr"` // ... on the output
 	Ti    []Tok           `json:"ti"`
 	To    []Tok           `json:"to"`
+	Tz    []Tok           `json:"tz"` // html: tokens of the output with the comment / attribute options switched off
 	Si    []string        `json:"si"` // template spans of the input, in order
 	So    []string        `json:"so"`
 	Flags []string        `json:"flags"`
@@ -634,7 +635,7 @@ func main() {
 			c.Exp = json.RawMessage("{}")
 		}
 		ev := Event{ID: c.ID, Mode: c.Mode, Lang: c.Lang, O: c.O, In: c.In, Flags: c.Flags, Exp: c.Exp,
-			Ti: []Tok{}, To: []Tok{}, Si: []string{}, So: []string{}}
+			Ti: []Tok{}, To: []Tok{}, Tz: []Tok{}, Si: []string{}, So: []string{}}
 		ev.Out, ev.Err, ev.Panic, ev.Msg = minifyLib(c.Lang, c.O, c.In)
 		if len(ev.Msg) > 300 {
 			ev.Msg = ev.Msg[:300]
@@ -652,6 +653,12 @@ func main() {
 		} else {
 			ev.Ti, ev.TiErr = tokens(c.Lang, c.In)
 			ev.To, ev.ToErr = tokens(c.Lang, ev.Out)
+			if c.Lang == "html" && (c.O.KeepComments || c.O.KeepSpecialComments || c.O.KeepDefaultAttrVals || c.O.KeepQuotes) {
+				n := c.O
+				n.KeepComments, n.KeepSpecialComments, n.KeepDefaultAttrVals, n.KeepQuotes = false, false, false, false
+				outN, _, _, _ := minifyLib(c.Lang, n, c.In)
+				ev.Tz, _ = tokens(c.Lang, outN)
+			}
 			if c.Lang == "html" {
 				ev.Si = spans(c.In, c.O.Delims)
 				ev.So = spans(ev.Out, c.O.Delims)
